@@ -284,6 +284,7 @@ def c02(tier):
     dp.cl3(P, C)
     dp.cl4(P, C)
     dp.cl6(P, C)
+    dp.cl8(P, C)
     # the evaluator's derivative and gradient entry points reach the cores through the dispatch table
     dp.dp(P, C)
     dp.dp(P, C, variant="driver-noevaltmpl")
